@@ -172,7 +172,7 @@ PROPS = {
                  storediff('storediff-all', None, (20, 30), (600, 40)),
                  sysdiff('sysdiff-data', ['CreatePromise', 'CompletePromise', 'ReadPromise', 'SearchPromises', 'CreateSchedule', 'ReadSchedule', 'CreateCallback', 'ClaimTask'],
                          (15, 120), (300, 150), 'C01,C10', ['-routed', '50', '-hostile', '-known', 'F5'], (100, 150))],
-        rule='codecdiff: random string maps over an alphabet of hostile characters (all 32 control characters, quotes, backslash, slash, markup characters, DEL, U+2028/2029, RTL and combining marks, U+FFFD/U+FFFF, astral-plane characters; lengths up to ~2000) encoded by the real encoding/json and decoded through the real PromiseRecord.Promise(), compared with the Lean codec both ways (char classes counted); storediff / sysdiff carry markup and non-ASCII data, headers, tags, receiver descriptions, slashes and colons in ids through the real store and coroutines and compare every stored row and every response field with the model',
+        rule='codecdiff: random string maps over an alphabet of hostile characters (all 32 control characters, quotes, backslash, slash, markup characters, DEL, U+2028/2029, RTL and combining marks, U+FFFD/U+FFFF, astral-plane characters; lengths up to ~2000) encoded by the real encoding/json and decoded through the real PromiseRecord.Promise(), compared with the Lean codec both ways (char classes counted); every case also converts a whole promise record (parameter, tags, and the value in each state a client completes a promise with: resolved, rejected, canceled; states cycle through all five) and a whole schedule record (tags, promise tags, promise parameter) and requires every field back as stored; storediff / sysdiff carry markup and non-ASCII data, headers, tags, receiver descriptions, slashes and colons in ids through the real store and coroutines and compare every stored row and every response field with the model',
         assumptions=['text = valid UTF-8; absent and empty are equivalent for maps and blobs', 'HTTP / protobuf wire codecs (gin, protobuf, base64) are exercised by frontdiff translation-equality only, not modelled',
                      'Postgres 32-bit columns are outside the model'],
         trusted_base=['Model/Json.lean is validated against encoding/json by codecdiff'],
@@ -189,7 +189,7 @@ PROPS = {
              'over harness-owned unbuffered channels, in a child process per script; after every step the registry size and every buffer level are compared with the Lean model '
              '(Model/Poll.step); for a send the observed receiver is passed to the model, which must be able to produce it for SOME value of the random pick; at the end every client '
              'stream and the set of closed channels are compared; direct C18 monitors on the implementation: Done called exactly once, reported delivered iff exactly one stream grew by one, '
-             'receiver in the addressed group, notifications only to the exact id; a crash of the worker is a violation; non-trivial = delivered sends + closes + refusals at the limit (counted)',
+             'receiver in the addressed group, notifications only to the exact id; a crash of the worker is a violation; busy-worker phase (implementation only, 40 trials): a same-id reconnect, then the old connection\'s disconnect issued WHILE a burst of messages keeps the worker in Process, so that the loop\'s priority branch (events found queued at the top of an iteration) is taken as well as the inner one — the replacement must stay open and receive the next message for the id; non-trivial = delivered sends + closes + refusals at the limit (counted)',
         assumptions=['operations are serialised by the single worker goroutine (this is the mechanism of the code: all registry changes and sends happen there)',
                      'each HTTP poll request makes one connection object and asks for it to be registered once'],
         trusted_base=['the HTTP handler around the worker (SSE framing, request context) is not modelled: `read` stands for one iteration of its loop',
